@@ -42,6 +42,13 @@ PROP = dict(
                       'bit.toggle', 'cell.lastrow', 'cell.lastcol'],
     assumptions=COMMON_ASSUME + [
         'cols >= 1 for every header; packed pairs may be (0,0)',
+        'header widths must be inside the format (rows 0..8, cols 1..8 bytes) '
+        'and wide enough for the counts, a packed level must be 1..8 and wide '
+        'enough for the larger coordinate; that the pinned code picks the '
+        'narrowest ones is counted (classes hdr.widths.minimal/wider, '
+        'packed.level.minimal/wider), not required - the header length used '
+        'for the matrix buffers is the one varintDimensionPairDimension '
+        'announces',
         'matrix buffers hold header + rows*cols*entry bytes (bits: rounded '
         'up to a byte) and the dimension value passed to the cell accessors '
         'is the one returned by varintDimensionPairEncode',
